@@ -223,7 +223,7 @@ def oracle_prep(t, out):
     try:
         rs = e2e.parse_responses(wire, head_for=[is_head], closed=not ka)
     except e2e.RespParseError as ex:
-        return "response is not a well-formed self-delimiting message: %s" % ex
+        return "response is not a well-formed self-delimiting message: %s" % re.sub(r"\d+", "N", str(ex))[:60]
     if len(rs) != 1:
         return "%d messages on the wire for one response" % len(rs)
     r = rs[0]
@@ -561,7 +561,7 @@ def check_exchange(reqs, data, closed):
     try:
         rs = e2e.parse_responses(data, head_for=finals_head, closed=closed)
     except e2e.RespParseError as ex:
-        return "response stream is not a sequence of well-formed self-delimiting messages: %s" % ex, []
+        return "response stream is not a sequence of well-formed self-delimiting messages: %s" % str(ex)[:80], []
     interim = [r for r in rs if 100 <= r["status"] < 200 and r["status"] != 101]
     rs = [r for r in rs if not (100 <= r["status"] < 200 and r["status"] != 101)]
     for r in interim:
